@@ -230,7 +230,10 @@ func Run(r *vh.Run) {
 		for s := 0; s < 2; s++ {
 			RunTree(r, trng, fmt.Sprintf("tree%d/s%d", i, s), t, t.Schedule(trng))
 		}
+		if i%3 == 0 {
+			runConcurrent(r, trng, fmt.Sprintf("tree%d/concurrent", i), t, t.Schedule(trng))
+		}
 	}
 	r.Assume("Merkle proof values are checked by the oracle (core's accumulator) only; the model carries ids")
-	r.Assume("sequential interleaving of polls and submissions (every exported Manager method holds m.mu for its whole body)")
+	r.Assume("concurrent polls are validated per answer (contiguity, bound) and by the final ledger; which interleavings occur is up to the Go scheduler")
 }
